@@ -25,6 +25,9 @@ CHECKS = {
  "C11": dict(text="Seeded search (degenerate use of the simulator: one core, no interleaving; injected nondeterminism: L1 window, alignments, solver packing order, runtime shapes): (size) the size arithmetic emitted by memref-to-snax is executed with runtime shapes and compared with the highest byte an independent layout oracle says the layout touches; (place) functions with allocs, subviews, casts and uses in straight-line and nested code are lowered by memref-to-snax,canonicalize,snax-allocate in all four modes and executed on a memory with ownership shadow: uses stay inside their allocation, the window and the alignment, and buffers live at the same time never share addresses.",
               note="The minimalloc solver is a stub (first-fit interval packer, seeded order): what is checked of the repo is the lifetime computation, address materialisation and size formula; uses touch first/last byte of their view; row-major 1-D buffers in the placement family; A8 for dynamic TSL steps.",
               tech="deterministic simulation of the allocated program on a memory with ownership shadow; seeded windows / alignments / solver answers (no schedule/fault dimension)", ref="5 C11"),
+ "C12": dict(text="Seeded search (degenerate use of the simulator: one core, no interleaving): functions with arguments, allocs and kernels in loops are compiled with set-memory-space,realize-memref-casts and executed on symbolic buffer contents next to the uncompiled reference (kernels operate on the arguments directly): every kernel must read the provenance the reference read, the arguments must end equal, every kernel operand must be in L1, argument types keep L3, and the output must respect SSA dominance. Constants and globals re-laid-out at compile time are decoded byte by byte with an independent layout oracle.",
+              note="Data failures are judged only when every cast value is first read (or never read): programs that first write then read an argument through its cast are reported as OBSERVATION, because the statement words the copy-in as 'before its first reader'. alloc-to-global and RemoveTransposeConstants are not exercised. Buffers of 4 elements, <= 12 kernels, loop nesting <= 2, trips 0..2.",
+              tech="deterministic simulation of reference vs compiled program on symbolic buffer contents; provenance refinement + static dominance/memory-space oracles (no schedule/fault dimension)", ref="5 C12"),
  "C13": dict(text="Seeded search over schedules: the function produced by insert-sync-barrier (optionally followed by dispatch-regions) is executed by 2-4 simulated cores on shared symbolic memory; a seeded scheduler decides every interleaving, stall and DMA/kernel burst split. A barrier-epoch race monitor checks every memory cell online, the barrier model detects deadlock, and final buffer contents plus everything each copy/kernel read are compared with the sequential single-core reference.",
               note="Trusts the cluster model in /verif (A4-A6: non-atomic multi-burst copies/kernels, all-core barrier, collective allocs), whole-buffer operands (dependencies through subviews/aliases are not generated), buffers of 4 elements, <=16 statements, nesting<=3, trip counts 0..3.",
               tech="deterministic multi-core simulation with seeded scheduler (interleavings, stalls, burst sizes); race monitor + deadlock invariant + refinement against sequential reference", ref="5 C13"),
